@@ -129,6 +129,46 @@ def run(ctx):
                 srcs = [x for x in A.walk(n) if x.k == "call" and "read_u32" in x.a[0]]
                 ctx.ob("R-C15.1", dec, "decompression-target-from-value-len-field", bool(srcs), "decompression buffer sized by a decoded u32 length field" if srcs else "decompression buffer is not sized from the record")
 
+    # ---- R-C15.6 the decoder rejects on a relation between header fields only where the encoder guarantees its negation
+    # (cross-check of siblings: serialize_marker_item establishes  value_len = len(value), on_disk_len = len(stored bytes),
+    #  and stored bytes = value exactly in the CompressionType::None arm — nothing relates the two lengths under lz4)
+    if dec:
+        og = ctx.og(dec)
+        sw, darms = variant_switch(dec, KINDS)
+        reads = []
+        if "Item" in darms:
+            for seq in uniq(C.sequences(F, dec, [darms["Item"]], "r")):
+                reads = [t.site for t in seq if t.kind not in ("bytes", "<back>")]
+                break
+        # positions in the Item arm after the tag: 0 value_type, 1 compression, 2 keyspace id, 3 key_len, 4 value_len, 5 on_disk_len
+        GUARANTEED = {frozenset((4, 5)): ("None", "value_len == on_disk_value_len for uncompressed values")}
+        nrel = 0
+        for b, blk in enumerate(dec.blocks):
+            if blk["t"]["k"] != "switch" or blk["cleanup"]:
+                continue
+            c = A.compare_switch(dec, b, og)
+            if not c:
+                continue
+
+            def field_of(term):
+                hits = {reads.index(x.site[1]) for x in A.walk(term) if x.k == "call" and x.site and x.site[0] == dec.id and x.site[1] in reads}
+                return hits
+            l, r = field_of(c[1]), field_of(c[2])
+            if len(l) == 1 and len(r) == 1 and l != r:
+                nrel += 1
+                pair = frozenset((list(l)[0], list(r)[0]))
+                g = GUARANTEED.get(pair)
+                arm_ok = False
+                if g:
+                    conds = A.edge_conditions(dec, b)
+                    arm_ok = any(t.k == "discr" and g[0] in labels and any(x.k == "call" and "Decode" in x.a[0] for x in A.walk(t)) for _, t, labels in conds)
+                    arm_ok = arm_ok and c[0] in ("Eq", "Ne")
+                ctx.ob("R-C15.6", dec, "header-relation-%d-%d" % tuple(sorted(pair)), bool(g) and arm_ok,
+                       "decoder tests %s between header fields %s: %s" % (c[0], sorted(pair), g[1]) if (g and arm_ok)
+                       else "decoder rejects records based on a relation (%s) between header fields %s that the encoder does not guarantee%s: valid records (e.g. incompressible values whose lz4 output is longer than the input) would be refused and the journal truncated there" % (
+                           c[0], sorted(pair), "" if not g else " in this compression arm"), dec.loc(b))
+        ctx.ob("R-C15.6", dec, "header-relations-enumerated", nrel >= 1, "%d header-field relation test(s) found in the decoder, all matched against the encoder's guarantees" % nrel, nontrivial=False)
+
     # ---- R-C15.2 tag tables
     for adt, tf, ff in (("journal::entry::Tag", "<journal::entry::Tag as std::convert::TryFrom<u8>>::try_from", "journal::entry::<impl std::convert::From<journal::entry::Tag> for u8>::from"),
                         ("version::FormatVersion", "<version::FormatVersion as std::convert::TryFrom<u8>>::try_from", "version::<impl std::convert::From<version::FormatVersion> for u8>::from")):
